@@ -4,7 +4,13 @@ use crate::engine::{facts::Facts, knowledge_base::KnowledgeBase, rule::Rule};
 use crate::errors::{Result, RuleEngineError};
 use crate::types::{ActionType, Value};
 use std::collections::HashMap;
+#[cfg(rre_verif_loom)]
+use loom::sync::{Arc, Mutex, RwLock};
+#[cfg(rre_verif_loom)]
+use loom::thread;
+#[cfg(not(rre_verif_loom))]
 use std::sync::{Arc, Mutex, RwLock};
+#[cfg(not(rre_verif_loom))]
 use std::thread;
 use std::time::{Duration, Instant};
 
